@@ -133,9 +133,11 @@ pub fn fit_tree(case: &TreeCase, x: &Rows, queries: &Rows) -> Result<Result<(Val
                 }
                 p.with_min_samples_split(case.min_samples_split).with_min_samples_leaf(case.min_samples_leaf).with_criterion(crit(case.criterion))
             };
-            let m = DecisionTreeClassifier::fit(&xm, &case.y, p).map_err(|e| format!("fit: {}", e))?;
+            // inherent entry points, or (every other case) the generic traits of smartcore::api
+            let via_trait = (x.len() / 2) % 2 == 1;
+            let m: DecisionTreeClassifier<f64> = if via_trait { sup_fit(&xm, &case.y, p) } else { DecisionTreeClassifier::fit(&xm, &case.y, p) }.map_err(|e| format!("fit: {}", e))?;
             let v = serde_json::to_value(&m).map_err(|e| e.to_string())?;
-            Ok((v, m.predict(&qm).map_err(|e| format!("predict: {}", e))?))
+            Ok((v, if via_trait { tr_predict(&m, &qm) } else { m.predict(&qm) }.map_err(|e| format!("predict: {}", e))?))
         } else {
             let p = if x.len() % 2 == 0 {
                 let mut p = DecisionTreeRegressorParameters::default().with_min_samples_leaf(case.min_samples_leaf).with_min_samples_split(case.min_samples_split);
@@ -150,9 +152,10 @@ pub fn fit_tree(case: &TreeCase, x: &Rows, queries: &Rows) -> Result<Result<(Val
                 }
                 p.with_min_samples_split(case.min_samples_split).with_min_samples_leaf(case.min_samples_leaf)
             };
-            let m = DecisionTreeRegressor::fit(&xm, &case.y, p).map_err(|e| format!("fit: {}", e))?;
+            let via_trait = (x.len() / 2) % 2 == 1;
+            let m: DecisionTreeRegressor<f64> = if via_trait { sup_fit(&xm, &case.y, p) } else { DecisionTreeRegressor::fit(&xm, &case.y, p) }.map_err(|e| format!("fit: {}", e))?;
             let v = serde_json::to_value(&m).map_err(|e| e.to_string())?;
-            Ok((v, m.predict(&qm).map_err(|e| format!("predict: {}", e))?))
+            Ok((v, if via_trait { tr_predict(&m, &qm) } else { m.predict(&qm) }.map_err(|e| format!("predict: {}", e))?))
         }
     })
 }
